@@ -21,6 +21,7 @@ def register(R):
     register_accept(R)
     register_tls_accept(R)
     register_tcp_initializer(R)
+    register_listener_close(R)
 
 
 def register_udp_context(R):
@@ -150,4 +151,21 @@ def register_tcp_initializer(R):
         modifies=["lowlevel_client.close_requested"],
         env={"yield_throw": "BaseException", "yield_send": "none", "exc_universe": UNIVERSE + ["TypedAttributeLookupError"], "desugar_exit_stack": True},
         tags="C17",
+    )
+
+
+def register_listener_close(R):
+    """ListenerSocketAdapter.aclose (C14): once the close has started the listening socket is closed on every exit, also when
+    the single checkpoint of the method is cancelled."""
+    R.module("easynetwork/lowlevel/api_async/backend/_asyncio/stream/listener.py")
+    R.shape("ListenerSocketAdapterC", cls="ListenerSocketAdapter",
+            fields={"__backend": "AsyncBackend", "__socket": "opt[RawSocketModel]", "__accept_scope": "opt[CancelScopeModel]"})
+    closed = "isnone(old(self.__socket)) or old(self.__socket).closed"
+    R.contract(
+        "ListenerSocketAdapter.aclose", self_shape="ListenerSocketAdapterC",
+        ensures=[("listening-socket-closed", closed, "C14"), ("marked-closed", "isnone(self.__socket)", "C14")],
+        raises={"BaseException": [("listening-socket-closed-even-if-the-close-is-cancelled-at-its-checkpoint", closed, "C14"),
+                                  ("marked-closed", "isnone(self.__socket)", "C14")]},
+        modifies=["self.__socket", "self.__socket.closed", "ghost.open_sockets"],
+        tags="C14",
     )
